@@ -98,3 +98,14 @@ def fill(claim, NA):
 		  "Trusted: Lean kernel + 3 axioms; harness; the json module and int<->str key conversion (keys_roundtrip is parametric in the codec). Equality of reloaded networks and "
 		  "of their trajectories is judged on the real objects (Python-vs-Python); the recursive to_dict/from_dict of the four classes is not modelled in Lean beyond the key-codec law. "
 		  "Product-level policy objects lose their node link on reload (documented exception): for such networks equality is judged field-wise and the link is restored before simulating.")
+
+	claim('C13',
+		  "Theorems (Props/C13.lean): for ANY pmf (list of non-negative rationals summing to one), any one-period cost G, fixed cost K and any number n = S-s of states: "
+		  "cost_telescopes (a pair (c, v) passing the decidable average-cost certificate gives J_T(i) + E[v(X_T)] = T c + v(i) for every horizon T and start state), W_bounded, "
+		  "avg_cost_converges (|J_T(i) - T c| <= 2B for all T: c IS the long-run average cost, rate 2B/T, exact arithmetic); expectation lemmas ex_add/ex_const/ex_le/ex_ge; "
+		  "m_zero; zfLoop_reports_cost / zf_reports_cost (the exact algorithm reports the cost of the pair it returns). The certificate for the model's own relative-value function "
+		  "is verified EXACTLY per instance by the driver (coverage.certificates_verified_exactly) and in-kernel for the worked example (S-s beyond the support). "
+		  "Tie: s_s_cost_discrete vs exact-rational model (1e-9) on random dyadic pmfs incl. zero-probability points, short supports, all s<S in a window; s_s_discrete_exact vs model "
+		  "search; stationary-distribution oracle and exhaustive window search on the Python result; Poisson entry point vs custom-pmf entry point on the Poisson pmf.",
+		  "Trusted: Lean kernel + 3 axioms; harness; SciPy poisson.pmf values (inputs). Open: that the model's v passes the certificate for every instance (verified per instance, not "
+		  "as a theorem); optimality of the Zheng-Federgruen search over all integer pairs (exhaustive window per instance = labelled test).")
